@@ -96,11 +96,11 @@ def r08_2(ctx):
     ctx.check(ok, "_grid_intg_fine samples `refine` local times per step, excluding the step end", detail="local sample times", expected="ts = tlocal[:-1]", found=ast.unparse(ts[0].value) if ts else None, fi=f)
     # coefficient block and power basis
     co = local_def("coeff", loops[1][2])
-    ok = len(co) == 1 and isinstance(co[0].value, ast.IfExp) and Norm(None).key(co[0].value.orelse) == Norm(None).key(ast.parse("stage._method.poly_coeff[%s*M+%s]" % (kv, lv), mode="eval").body)
+    ok = len(co) == 1 and isinstance(co[0].value, ast.IfExp) and Norm(sc, no_expand=("M", "N")).key(co[0].value.orelse) == Norm(None).key(ast.parse("stage._method.poly_coeff[%s*M+%s]" % (kv, lv), mode="eval").body)
     ctx.check(ok, "_grid_intg_fine selects the coefficient block of step (k,l)", detail="coefficients of another step", expected="stage._method.poly_coeff[k*M+l]", found=ast.unparse(co[0].value) if co else None, fi=f,
               sample={"block": ast.unparse(co[0].value) if co else None})
     cq = local_def("coeff_q", loops[1][2])
-    ok = len(cq) == 1 and isinstance(cq[0].value, ast.IfExp) and Norm(None).key(cq[0].value.orelse) == Norm(None).key(
+    ok = len(cq) == 1 and isinstance(cq[0].value, ast.IfExp) and Norm(sc, no_expand=("M", "N")).key(cq[0].value.orelse) == Norm(None).key(
         ast.parse("horzcat(stage._method.xqk[%s*M+%s], stage._method.poly_coeff_q[%s*M+%s])" % (kv, lv, kv, lv), mode="eval").body)
     ctx.check(ok, "_grid_intg_fine quadrature polynomial starts at the quadrature value of the same integrator point", detail="quadrature block", expected="horzcat(xqk[k*M+l], poly_coeff_q[k*M+l])",
               found=ast.unparse(cq[0].value) if cq else None, fi=f)
@@ -138,18 +138,37 @@ def r08_3(ctx):
     f = P.own_method("DirectCollocation", "add_constraints")
     sc = ctx.scope(f)
     n = ctx.norm(f)
-    ps = [c for c in walk_no_nested(f.node) if is_call_to(c, "append", "ps")]
-    ok = len(ps) == 1 and ast.unparse(ps[0].args[0]) == "hcat(p.coef[::-1])"
-    ctx.check(ok, "Lagrange basis rows stored in ascending powers", detail="coefficient order (numpy poly1d is descending)", expected="ps.append(hcat(p.coef[::-1]))", found="; ".join(ast.unparse(c) for c in ps), fi=f)
-    if ps:
-        loops = sc.enclosing_loops(ps[0])
-        ok = len(loops) == 1 and Norm(None).poly(loops[0][1].args[0]) == expected("self.degree+1")
-        ctx.check(ok, "one Lagrange polynomial per interpolation node (degree+1)", detail="basis size", expected="for j in range(self.degree+1)", found=ast.unparse(loops[0][1]) if loops else None, fi=f)
+    # ascending storage: every Lagrange row is appended as hcat(<poly>.coef[::-1]) (local names are free)
+    asc = [c for c in walk_no_nested(f.node) if isinstance(c, ast.Call) and isinstance(c.func, ast.Attribute) and c.func.attr == "append" and c.args
+           and is_call_to(c.args[0], "hcat") and c.args[0].args and isinstance(c.args[0].args[0], ast.Subscript)
+           and isinstance(c.args[0].args[0].value, ast.Attribute) and c.args[0].args[0].value.attr in ("coef", "coeffs", "c")]
+    ok = len(asc) == 2 and all(ast.unparse(c.args[0].args[0].slice) == "::-1" for c in asc)
+    ctx.check(ok, "Lagrange basis rows stored in ascending powers", detail="coefficient order (numpy poly1d is descending)", expected="rows.append(hcat(p.coef[::-1])) for the state and the algebraic basis",
+              found="; ".join(ast.unparse(c) for c in asc), fi=f)
+    if asc:
+        loops = sc.enclosing_loops(asc[0])
+        rb = loops[-1][1] if loops else None
+        ok = rb is not None and is_call_to(rb, "range") and Norm(sc).poly(rb.args[-1]) == expected("self.degree+1") and (len(rb.args) == 1 or Norm(sc).poly(rb.args[0]) == Poly.const(0))
+        ctx.check(ok, "one Lagrange polynomial per interpolation node (degree+1)", detail="basis size", expected="for j in range(self.degree+1)", found=ast.unparse(rb) if rb is not None else None, fi=f)
     # Lagrange construction: product over r != j of (t - tau_r)/(tau_j - tau_r)
-    mul = [st for st in walk_no_nested(f.node) if isinstance(st, ast.AugAssign) and isinstance(st.target, ast.Name) and st.target.id == "p" and isinstance(st.op, ast.Mult)]
-    ok = len(mul) == 1 and Norm(None).key(mul[0].value) == Norm(None).key(ast.parse("np.poly1d([1, -tau_root[r]]) / (tau_root[j] - tau_root[r])", mode="eval").body) and \
-        [(ast.unparse(t).replace(" ", ""), p) for t, p in sc.guards(mul[0])] == [("r!=j", True)]
-    ctx.check(ok, "Lagrange polynomial j: product over r != j of (t - tau_r)/(tau_j - tau_r)", detail="interpolation basis", expected="p *= poly1d([1, -tau_r])/(tau_j - tau_r) for r != j", found="; ".join(ast.unparse(m) for m in mul), fi=f)
+    mul = [st for st in walk_no_nested(f.node) if isinstance(st, ast.AugAssign) and isinstance(st.target, ast.Name) and isinstance(st.op, ast.Mult) and "poly1d" in ast.unparse(st.value)]
+    okm = len(mul) >= 1
+    for m in mul[:1]:
+        loops = sc.enclosing_loops(m)
+        okm = len(loops) >= 2
+        if okm:
+            j, r = ast.unparse(loops[-2][0]), ast.unparse(loops[-1][0])
+            v = m.value
+            okm = isinstance(v, ast.BinOp) and isinstance(v.op, ast.Div) and is_call_to(v.left, "poly1d") and isinstance(v.left.args[0], ast.List) and len(v.left.args[0].elts) == 2
+            if okm:
+                one, neg = v.left.args[0].elts
+                tnames = [x for x in ast.walk(neg) if isinstance(x, ast.Subscript)]
+                T = ast.unparse(tnames[0].value) if tnames else None
+                okm = ast.unparse(one) == "1" and Norm(None).poly(neg) == Norm(None).poly(ast.parse("-%s[%s]" % (T, r), mode="eval").body) and \
+                    Norm(None).poly(v.right) == Norm(None).poly(ast.parse("%s[%s]-%s[%s]" % (T, j, T, r), mode="eval").body)
+                gs = [(Norm(None).key(t), p) for t, p in sc.guards(m)]
+                okm = okm and gs == [(Norm(None).key(ast.parse("%s!=%s" % (r, j), mode="eval").body), True)]
+    ctx.check(okm, "Lagrange polynomial j: product over r != j of (t - tau_r)/(tau_j - tau_r)", detail="interpolation basis", expected="p *= poly1d([1, -tau_r])/(tau_j - tau_r) for r != j", found="; ".join(ast.unparse(m) for m in mul), fi=f)
     S = [d for d in sc.defs.get("S", []) if d.kind == "assign"]
     ok = len(S) == 1 and Norm(None).key(S[0].value) == Norm(None).key(ast.parse("1/repmat(hcat([dt**i for i in range(self.degree + 1)]), self.degree + 1, 1)", mode="eval").body)
     ctx.check(ok, "time rescaling of the coefficients: column i divided by dt^i", detail="rescaling from normalised to physical local time", expected="S = 1/repmat(hcat([dt**i for i in range(degree+1)]), degree+1, 1)",
